@@ -37,6 +37,10 @@ pub enum RoOp {
     Flush { which: u8 },
     Truncate { n: u16 },
     Reader { off: u16 },
+    /// unsafe API, within its safety conditions: no handle is in use, so any rewind is allowed
+    Rewind { sel: u8, d: i8 },
+    /// unsafe API, within its safety conditions: give back a range that was handed out before the file was closed
+    Dealloc { which: u8 },
 }
 
 #[derive(Clone, Debug, Serialize, Deserialize)]
@@ -81,6 +85,8 @@ struct Built {
     allocated: usize,
     /// arena-relative offsets of the free-list nodes, in list order
     nodes: Vec<u32>,
+    /// buffer extents of the ranges that were handed out and not released when the file was closed
+    live: Vec<(usize, usize)>,
 }
 
 /// Build a valid arena file with a short history, leave stale non-zero bytes above the cursor.
@@ -117,6 +123,7 @@ fn build<A: Flavor>(case: &CaseC09, classes: &mut BTreeSet<&'static str>) -> Res
     let capacity = w.a().capacity();
     let allocated = w.a().allocated();
     let nodes: Vec<u32> = w.a().fl().nodes.iter().map(|n| n.0).collect();
+    let live: Vec<(usize, usize)> = w.hs.iter().filter(|h| h.bcap > 0).map(|h| (h.boff, h.bcap)).collect();
     let path = w.path.clone().unwrap();
     if let Err(v) = w.close_all() {
         w.leak();
@@ -125,7 +132,7 @@ fn build<A: Flavor>(case: &CaseC09, classes: &mut BTreeSet<&'static str>) -> Res
     w.path = None;
     w.leak();
     let bytes = std::fs::read(&path).unwrap_or_default();
-    Ok(Some(Built { path, bytes, capacity, allocated, nodes }))
+    Ok(Some(Built { path, bytes, capacity, allocated, nodes, live }))
 }
 
 fn run_refuse<A: Flavor>(case: &CaseC09, m: &Mutation, mode: u8, capsel: u8, create: bool, flags: u8) -> (BTreeSet<&'static str>, Option<Viol>) {
@@ -379,6 +386,31 @@ fn run_readonly<A: Flavor>(case: &CaseC09, mode: u8, capsel: u8, ops: &[RoOp], f
                         Err(_) => return Err(viol!("C09", "ro-truncate-panic", "op {i}: truncate({nn}) panicked on a read-only arena")),
                     }
                 }
+                RoOp::Rewind { sel, d } => {
+                    use rarena_allocator::ArenaPosition;
+                    let (al, cp, dof) = (arena.allocated() as i64, arena.capacity() as i64, arena.data_offset() as i64);
+                    let pos = match sel % 6 {
+                        0 => ArenaPosition::Start((dof + *d as i64).max(0) as u32),
+                        1 => ArenaPosition::Start((al + *d as i64).max(0) as u32),
+                        2 => ArenaPosition::End((cp - al + *d as i64).max(0) as u32),
+                        3 => ArenaPosition::Current(*d as i64),
+                        4 => ArenaPosition::Current(0),
+                        _ => ArenaPosition::Start(0),
+                    };
+                    call("rewind", &mut || {
+                        unsafe { ar.rewind(pos) };
+                        Ok(true)
+                    })?;
+                }
+                RoOp::Dealloc { which } => {
+                    if !b.live.is_empty() {
+                        let (o, l) = b.live[(*which as usize * b.live.len()) >> 8];
+                        call("dealloc", &mut || {
+                            let _ = unsafe { ar.dealloc(o as u32, l as u32) };
+                            Ok(true)
+                        })?;
+                    }
+                }
                 RoOp::Reader { off } => {
                     let o = *off as usize % (arena.capacity() + 8);
                     let _ = arena.get_u8(o);
@@ -454,6 +486,8 @@ impl Prop for C09 {
             2 => (0u8..6).prop_map(|which| RoOp::Flush { which }),
             2 => any::<u16>().prop_map(|n| RoOp::Truncate { n }),
             2 => any::<u16>().prop_map(|off| RoOp::Reader { off }),
+            2 => (0u8..6, -3i8..=3).prop_map(|(sel, d)| RoOp::Rewind { sel, d }),
+            2 => any::<u8>().prop_map(|which| RoOp::Dealloc { which }),
         ];
         let kind = prop_oneof![
             3 => (mutation, 0u8..8, 0u8..3, any::<bool>(), prop_oneof![2 => Just(0u8), 1 => 0u8..32]).prop_map(|(m, mode, capsel, create, flags)| Kind::Refuse { m, mode, capsel, create, flags }),
@@ -471,7 +505,7 @@ impl Prop for C09 {
         scale(tier, 600_000, 4_000_000)
     }
     fn rule() -> &'static str {
-        "a valid arena file produced by a short Engine-A history (with stale non-zero bytes left above the cursor by an on-top release), then either (A) one mutation - any of the eight identification bytes to any value, truncation to any length, replacement by arbitrary bytes, or a different expected freelist kind / magic version, in one case in four on top of the crash state of the free list (a linked segment whose size field is 0, which a successful writable open repairs) - opened through map_mut / map_copy / map / map_copy_read_only or their *_with_path_builder forms with capacity same / larger / absent and with or without create: the open must fail whenever the decoded fields (magic text, magic version, format version, freelist byte, expected freelist for writable opens, header-prefix size) say so, and after every failed open the first old_len bytes of the file are identical; or (B) a read-only open (map / map_copy_read_only) followed by 1..8 calls over the safe mutating surface (all alloc flavours incl. zero-size, discard_freelist, set_minimum_segment_size, increase_discarded, clear, flush*, truncate, readers): each returns ReadOnly / PermissionDenied, panics with a read-only message, or returns with state and memory unchanged; no signal; file identical afterwards. Non-trivial = a refused open on a file with stale bytes above the cursor, or a read-only session with >= 3 distinct mutators"
+        "a valid arena file produced by a short Engine-A history (with stale non-zero bytes left above the cursor by an on-top release), then either (A) one mutation - any of the eight identification bytes to any value, truncation to any length, replacement by arbitrary bytes, or a different expected freelist kind / magic version, in one case in four on top of the crash state of the free list (a linked segment whose size field is 0, which a successful writable open repairs) - opened through map_mut / map_copy / map / map_copy_read_only or their *_with_path_builder forms with capacity same / larger / absent and with or without create: the open must fail whenever the decoded fields (magic text, magic version, format version, freelist byte, expected freelist for writable opens, header-prefix size) say so, and after every failed open the first old_len bytes of the file are identical; or (B) a read-only open (map / map_copy_read_only) followed by 1..8 calls over the safe mutating surface (all alloc flavours incl. zero-size, discard_freelist, set_minimum_segment_size, increase_discarded, clear, flush*, truncate, readers - and the two unsafe mutators that have no error to return, rewind and dealloc of a range handed out before the close, within their safety conditions): each returns ReadOnly / PermissionDenied, panics with a read-only message, or returns with state and memory unchanged; no signal; file identical afterwards. Non-trivial = a refused open on a file with stale bytes above the cursor, or a read-only session with >= 3 distinct mutators"
     }
     fn assumptions() -> Vec<&'static str> {
         vec![
